@@ -29,10 +29,27 @@ func vFallbackExec(cfg []int64, ops [][]int64) (obs [][]int64, nontrivial bool, 
 	if len(cfg) == 1 && cfg[0] >= 1 && cfg[0] <= 3 {
 		n = cfg[0]
 	}
+	// cfg [2,1]: two servers; the channel to server 1 is shared with a second authority "b" that keeps a
+	// permanent watch (resource xdstp://b/t1/r9, reported as name 9) on it
+	shared := len(cfg) == 2 && cfg[0] == 2 && cfg[1] == 1
+	if shared {
+		n = 2
+	}
 	fallbacks, reverts := 0, 0
+	sharedFb, sharedRev := 0, 0 // shared mode: requests on s1 naming / no longer naming resources 0..2
+	sharedOn := false
 	synctest.Test(vADST, func(t *testing.T) {
-		h := vADSNewHarness([]bool{false, false}, make([]xdsclient.ServerFeature, n), false)
+		var h *vADSHarness
+		if shared {
+			h = vADSNewHarnessShared([]bool{false, false}, make([]xdsclient.ServerFeature, n))
+		} else {
+			h = vADSNewHarness([]bool{false, false}, make([]xdsclient.ServerFeature, n), false)
+		}
 		defer h.close()
+		if shared {
+			h.watchName(99, 1, "xdstp://b/t1/r9")
+			synctest.Wait()
+		}
 		in := func(x, lo, hi int64) bool { return x >= lo && x <= hi }
 		for i, op := range ops {
 			h.beginOp()
@@ -100,17 +117,38 @@ func vFallbackExec(cfg []int64, ops [][]int64) (obs [][]int64, nontrivial bool, 
 					fallbacks++
 				}
 			}
+			if w, ok := last[1]; ok && shared {
+				has := false
+				for _, nm := range w[2:] {
+					if nm <= 2 {
+						has = true
+					}
+				}
+				if has && !sharedOn {
+					sharedFb++
+				}
+				if !has && sharedOn && code == 5 {
+					sharedRev++
+				}
+				sharedOn = has
+			}
 			if code == 5 && len(closed) > 0 {
 				reverts++
 			}
 		}
 	})
-	nontrivial = fallbacks > 0 && (reverts > 0 || n == 1)
+	nontrivial = (fallbacks > 0 && (reverts > 0 || n == 1)) || (shared && sharedFb > 0 && sharedRev > 0)
 	if fallbacks > 0 {
 		tags = append(tags, "fallback")
 	}
 	if reverts > 0 {
 		tags = append(tags, "revert")
+	}
+	if sharedFb > 0 {
+		tags = append(tags, "shared-fallback")
+	}
+	if sharedRev > 0 {
+		tags = append(tags, "shared-revert")
 	}
 	return
 }
@@ -121,6 +159,35 @@ func vFallbackGen(r *vRand, tier string, idx int) (cfg []int64, ops [][]int64) {
 		n = 1
 	}
 	cfg = []int64{n}
+	if idx%5 == 3 {
+		// shared fallback channel: servers [s0, s1], s1 also serves a second authority
+		cfg = []int64{2, 1}
+		n = 2
+		ver := int64(0)
+		cnt := 30 + r.Intn(50)
+		for len(ops) < cnt {
+			switch x := r.Intn(100); {
+			case x < 14:
+				ops = append(ops, []int64{1, int64(r.Intn(3))})
+			case x < 20:
+				ops = append(ops, []int64{2, int64(r.Intn(3))})
+			case x < 42:
+				ops = append(ops, []int64{3, int64(r.Intn(2))})
+			case x < 58:
+				ops = append(ops, []int64{4, int64(r.Intn(2))})
+			case x < 86:
+				ver++
+				op := []int64{5, int64(r.Intn(2)), ver}
+				for k := r.Intn(3); k > 0; k-- {
+					op = append(op, int64(r.Intn(3)), 1, int64(r.Intn(3)))
+				}
+				ops = append(ops, op)
+			default:
+				ops = append(ops, []int64{6, int64(r.Intn(2))})
+			}
+		}
+		return
+	}
 	cnt := 30 + r.Intn(60)
 	ver := int64(0)
 	// even cases avoid the known finding (two servers) and the revert-loses-resource behaviour (all watches up front), so that their
